@@ -3,7 +3,7 @@
    extracted Coq datatypes; there is no Extract Constant. *)
 Require Extraction.
 Require Import ExtrOcamlBasic.
-From GLMM Require Half IntFn BitUtil Ulp Pack.
+From GLMM Require Half IntFn BitUtil Ulp Pack Common.
 Extraction Language OCaml.
 Extraction "models.ml" Half.toFloat32 Half.toFloat16 Half.packHalf2x16 Half.unpackHalf2x16 Half.packHalf4x16 Half.unpackHalf4x16 Half.packHalfL Half.unpackHalfL
   IntFn.norm IntFn.umod IntFn.bitfieldReverse IntFn.bitCount IntFn.findLSB IntFn.findMSB IntFn.bitfieldExtract IntFn.bitfieldInsert IntFn.uaddCarry IntFn.usubBorrow IntFn.umulExtended IntFn.imulExtended IntFn.mask_T
@@ -16,4 +16,5 @@ Extraction "models.ml" Half.toFloat32 Half.toFloat16 Half.packHalf2x16 Half.unpa
   Pack.pack_word Pack.unpack_word Pack.pack_ints Pack.unpack_ints Pack.packF2x11_1x10 Pack.unpackF2x11_1x10
   Pack.fmt_unorm2x16 Pack.fmt_snorm2x16 Pack.fmt_unorm4x8 Pack.fmt_snorm4x8 Pack.fmt_unorm1x8 Pack.fmt_unorm2x8 Pack.fmt_snorm1x8 Pack.fmt_snorm2x8 Pack.fmt_unorm1x16 Pack.fmt_unorm4x16
   Pack.fmt_snorm1x16 Pack.fmt_snorm4x16 Pack.fmt_snorm3x10_1x2 Pack.fmt_unorm3x10_1x2 Pack.fmt_unorm2x4 Pack.fmt_unorm4x4 Pack.fmt_unorm1x5_1x6_1x5 Pack.fmt_unorm3x5_1x1 Pack.fmt_unorm2x3_1x2
-  Pack.fmt_tunorm8 Pack.fmt_tunorm16 Pack.fmt_tsnorm8 Pack.fmt_tsnorm16.
+  Pack.fmt_tunorm8 Pack.fmt_tunorm16 Pack.fmt_tsnorm8 Pack.fmt_tsnorm16
+  Common.ratio_of_bits Common.roundEven Common.nearest_even Common.iround.
